@@ -395,10 +395,13 @@ func (c *Ctx) c12LiteralForms() {
 		{"type P struct {\n\tX int\n\tY int\n}\np := &P{1, 2}\nprintln(p.X, p.Y)", "1 2\n"},
 		{"type P struct {\n\tX int\n\tY int\n}\nps := []*P{{3, 4}, {Y: 5}}\nprintln(ps[0].X, ps[0].Y, ps[1].X, ps[1].Y)", "3 4 0 5\n"},
 		{"type P struct {\n\tX int\n\tY int\n}\nfunc mk() *P {\n\treturn &P{7, 8}\n}\nprintln(mk().Y)", "8\n"},
+		// keyed and positional elements in one literal: Go's value or a rejection, never another value
+		{"s := []int{5, 2: 7}\nprintln(len(s), s[0], s[1], s[2])", "3 5 0 7\n"},
+		{"s := []int{1: 7, 8}\nprintln(len(s), s[0], s[1], s[2])", "3 0 7 8\n"},
 	} {
 		out, err := runScript(k.src)
 		c.Rep.Oracle["literal-forms"]++
-		if err != nil && strings.Contains(k.src, "{1, 2}") || err != nil && strings.Contains(k.src, "{3, 4}") || err != nil && strings.Contains(k.src, "{7, 8}") {
+		if err != nil && (strings.Contains(k.src, "{1, 2}") || strings.Contains(k.src, "{3, 4}") || strings.Contains(k.src, "{7, 8}") || strings.Contains(k.src, "2: 7}") || strings.Contains(k.src, "{1: 7, 8}")) {
 			c.Rep.Count("literal-without-field-names-rejected")
 			continue
 		}
